@@ -2589,7 +2589,7 @@ func run(c *vf.Ctx) {
 	for _, sh := range shards(plain, nShard) {
 		jobs = append(jobs, job{sh, false})
 	}
-	for _, sh := range shards(onep, 4) {
+	for _, sh := range shards(onep, 8) {
 		jobs = append(jobs, job{sh, false})
 	}
 	jobs = append(jobs, job{onepRace, true})
